@@ -284,7 +284,8 @@ pub fn roles_line(l: &str) -> String {
         Err(_) => return "bad-case".into(),
     };
     let src = v["src"].as_str().unwrap_or("");
-    let probe = |spec: &str| format!("import * as M from '{}';\nconst o: any = {{}};\nfor (const k of Object.keys(M).sort()) o[k] = (M as any)[k];\nJSON.stringify(o)", spec);
+    // snapshot of the namespace, then call every exported `bump*` function twice and snapshot again (live bindings)
+    let probe = |spec: &str| format!("import * as M from '{}';\nfunction snap(): string {{ const o: any = {{}}; for (const k of Object.keys(M).sort()) {{ const v = (M as any)[k]; if (typeof v !== 'function') o[k] = v; }} return JSON.stringify(o); }}\nconst s1 = snap();\nfor (const k of Object.keys(M).sort()) {{ if (k.startsWith('bump')) {{ (M as any)[k](); (M as any)[k](); }} }}\ns1 + ' AFTER ' + snap()", spec);
     let strip = |s: String| s;
     // (a) entry module
     let a = {
